@@ -4,6 +4,7 @@
   score-range theorems are jointly satisfiable.
 -/
 import ChessVerif.Proofs.SearchScoreGo
+import ChessVerif.Proofs.SearchScoreFree
 import ChessVerif.Proofs.SearchDemo
 
 namespace ChessVerif
@@ -11,8 +12,11 @@ namespace Search
 
 theorem demo_scoreLaws (K : Keys) : ScoreLaws (demoComp K) NoMen (fun _ => True) (fun _ => 0) where
   tt_ok := fun _ _ => trivial
-  tt_probe := fun _ _ _ _ _ h => by simp [demoComp] at h
-  tt_store := fun _ _ _ _ _ _ _ _ _ => trivial
+  tt_probe := fun _ _ _ _ _ _ _ h => by simp [demoComp] at h
+  tt_store := fun _ _ _ _ _ _ _ _ _ _ _ _ => trivial
+  nmp_floor := fun _ d se beta h => by
+    simp only [demoComp, Bool.and_eq_true, decide_eq_true_eq] at h
+    exact h.2
   tt_failHigh := fun _ _ _ _ _ _ => trivial
   tt_nextGen := fun _ _ => trivial
   rfp_sound := fun d se beta hd _ h => by
@@ -22,7 +26,7 @@ theorem demo_scoreLaws (K : Keys) : ScoreLaws (demoComp K) NoMen (fun _ => True)
     omega
   nmp_sound := fun _ d se beta h => by
     simp only [demoComp, Bool.and_eq_true, decide_eq_true_eq] at h
-    exact h.2
+    exact h.1.2
   lmr_late := fun d q h => by
     simp only [demoComp, Bool.and_eq_true, decide_eq_true_eq] at h
     omega
@@ -34,6 +38,15 @@ theorem demo_scoreLaws (K : Keys) : ScoreLaws (demoComp K) NoMen (fun _ => True)
       exact (List.append_eq_nil_iff.1 this).1
     simp [demoComp, this] at h
   measure_bound := fun _ _ => by decide
+
+/-- the parameter laws of the `GoSane`-free argument hold for `demoComp` (window 44, unwrapped margin). -/
+theorem demo_aspLaws (K : Keys) : AspLaws (demoComp K) where
+  window44 := rfl
+  rfp_shallow := fun d se beta hd _ _ h => by
+    simp only [demoComp, Bool.and_eq_true, decide_eq_true_eq] at h
+    have h2 : beta + d * 100 ≤ se := h.1.2
+    simp only [Score] at *
+    omega
 
 /-- with no fuel every search function gives up at once: `GoSane` holds (no window is ever widened). -/
 theorem demo_goSane (K : Keys) (L : Limits) (clock : Clock) (e : Engine Unit) (b : Board) :
